@@ -91,6 +91,8 @@ pub struct Plan {
     pub early_salt: u8,
     /// Do not read at all (receiver stalls)
     pub no_read: bool,
+    /// writes go through `write_chunks` with the data split into three chunks (vectored API)
+    pub vectored: bool,
     /// Answer a Stopped event with reset() (as an application that abandons the stream does), so
     /// that the stream is released and its slot can be granted again
     pub reset_on_stopped: bool,
@@ -343,7 +345,19 @@ impl StdApp {
             }
             let salt = self.salt;
             let data: Vec<u8> = (0..n as u64).map(|i| pattern(s, t.written + i) ^ salt).collect();
-            match cx.conn.send_stream(id).write(&data) {
+            let wr = if self.plan.vectored && n >= 3 {
+                // three chunks, each no larger than a third: every one may fit where the sum does not
+                let a = n / 3;
+                let mut chunks = [
+                    bytes::Bytes::copy_from_slice(&data[..a]),
+                    bytes::Bytes::copy_from_slice(&data[a..2 * a]),
+                    bytes::Bytes::copy_from_slice(&data[2 * a..]),
+                ];
+                cx.conn.send_stream(id).write_chunks(&mut chunks).map(|w| w.bytes)
+            } else {
+                cx.conn.send_stream(id).write(&data)
+            };
+            match wr {
                 Ok(k) => {
                     did = true;
                     if k == 0 || k > n {
